@@ -294,6 +294,7 @@ func (h *hasher) chanObj(c *Chan) {
 
 type fnInfo struct {
 	vals  []ssa.Value            // all registers in canonical order
+	index map[ssa.Value]int
 	uses  map[ssa.Value][]usePos // use sites
 	reach [][]bool               // reach[b][u]: block u reachable from b through >= 1 edge
 }
@@ -304,7 +305,7 @@ func (in *Interp) fnInfoOf(f *ssa.Function) *fnInfo {
 	if fi, ok := in.fnInfos[f]; ok {
 		return fi
 	}
-	fi := &fnInfo{uses: map[ssa.Value][]usePos{}}
+	fi := &fnInfo{uses: map[ssa.Value][]usePos{}, index: map[ssa.Value]int{}}
 	for _, p := range f.Params {
 		fi.vals = append(fi.vals, p)
 	}
@@ -332,6 +333,9 @@ func (in *Interp) fnInfoOf(f *ssa.Function) *fnInfo {
 				}
 			}
 		}
+	}
+	for i, v := range fi.vals {
+		fi.index[v] = i
 	}
 	fi.reach = make([][]bool, n)
 	for i := range fi.reach {
@@ -367,7 +371,7 @@ func (fi *fnInfo) live(v ssa.Value, block, pc int) bool {
 func (h *hasher) frame(fr *Frame) {
 	if fr.fn == nil {
 		h.u(99)
-		for _, v := range fr.regs {
+		for _, v := range fr.extra {
 			h.val(v)
 		}
 		return
@@ -377,7 +381,7 @@ func (h *hasher) frame(fr *Frame) {
 	h.u(uint64(fr.pc))
 	fi := h.in.fnInfoOf(fr.fn)
 	for i, v := range fi.vals {
-		r, ok := fr.regs[v]
+		r, ok := fr.getReg(v)
 		if !ok || !fi.live(v, fr.block.Index, fr.pc) {
 			continue
 		}
